@@ -242,9 +242,18 @@ def r10(cx):
         fl = Flow(f)
         lin = Lin()
         for st in own_nodes(f):
-            if isinstance(st, ast.Assign) and norm(st.targets[0]) == "offset":
+            if isinstance(st, ast.Assign) and norm(st.targets[0]) == "offset" and not (isinstance(st.value, ast.Call) and norm(st.value.func) == "self._get_offset"):
                 arm = "table" if any(c.text() == "hasattr(self, '_offsets')" for c in fl.conds_at(st)) else "stride"
                 forms.setdefault(arm, {})[name] = (lin.poly(st.value), st)
+    # an accessor that obtains its offset from self._get_offset(index) shares that locator by construction
+    for name in ("__getitem__", "__setitem__"):
+        f = m.func(f"array::Array.{name}")
+        if not any(name in forms.get(a, {}) for a in ("table", "stride")):
+            dele = [st for st in own_nodes(f) if isinstance(st, ast.Assign) and norm(st.targets[0]) == "offset" and isinstance(st.value, ast.Call) and norm(st.value.func) == "self._get_offset"]
+            cx.recog(bool(dele), f, f"Array.{name}: index -> offset computation (inline or through self._get_offset)")
+            for arm in ("table", "stride"):
+                if arm in forms and "_get_offset" in forms[arm]:
+                    forms[arm][name] = (forms[arm]["_get_offset"][0], dele[0])
     for arm in ("table", "stride"):
         cx.need(arm in forms and len(forms[arm]) == 3, f"Array locators: {arm} arm not found in all three accessors")
         ref = forms[arm]["__getitem__"][0]
